@@ -70,7 +70,9 @@ func HITS(g graph.Directed, tol float64) map[int64]HubAuthority {
 		norm = math.Sqrt(norm)
 
 		for i := range auth {
-			auth[i] /= norm
+			if norm != 0 {
+				auth[i] /= norm
+			}
 			deltaAuth[i] -= auth[i]
 		}
 
@@ -87,7 +89,9 @@ func HITS(g graph.Directed, tol float64) map[int64]HubAuthority {
 		norm = math.Sqrt(norm)
 
 		for i := range hub {
-			hub[i] /= norm
+			if norm != 0 {
+				hub[i] /= norm
+			}
 			deltaHub[i] -= hub[i]
 		}
 
